@@ -20,15 +20,16 @@ Definition comp_ok (c : comp) : Prop :=
 
 Definition DI (s : st) : Prop :=
   Forall comp_ok (g_done s) /\
+  (h_destroying s = false ->
   match s_resp s with
   | Some c => exists i cb rest, s_queue s = (i, cb) :: rest /\ resp_ok i c (g_parts s) /\
                                 Forall (fun x => x = i) (g_from s) /\ g_from s <> []
   | None => g_parts s = [] /\ g_from s = []
-  end.
+  end).
 
 Lemma DI_frame s s' : kframe s s' -> DI s -> DI s'.
 Proof.
-  unfold kframe, DI. intros (K1 & K2 & K3 & K4 & K5 & _). rewrite K1, K2, K3, K4, K5. auto.
+  unfold kframe, DI. intros (K1 & K2 & K3 & K4 & K5 & _ & _ & _ & _ & _ & K11). rewrite K1, K2, K3, K4, K5, K11. auto.
 Qed.
 
 Lemma combine_some a b c : combine a b = Some c ->
@@ -69,9 +70,9 @@ Proof.
 Qed.
 
 Lemma handle_D i r s ag s' ag' cb rest :
-  DI s -> s_queue s = (i, cb) :: rest -> handle i (tag i r) s ag = (s', ag') -> DI s'.
+  DI s -> h_destroying s = false -> s_queue s = (i, cb) :: rest -> handle i (tag i r) s ag = (s', ag') -> DI s'.
 Proof.
-  unfold handle. intros [Hdone Hresp] Hq H.
+  unfold handle. intros [Hdone Hresp] Hnd Hq H. specialize (Hresp Hnd).
   remember (set_s_pending false s) as s0 eqn:Es0.
   assert (Q0 : s_queue s0 = (i, cb) :: rest) by (subst s0; exact Hq).
   assert (D0 : g_done s0 = g_done s) by (subst s0; reflexivity).
@@ -140,41 +141,54 @@ Proof. unfold comp_ok; cbn. intros H; discriminate. Qed.
 
 Lemma DI_qapp s e q' :
   DI s -> s_queue q' = s_queue s ++ [e] -> s_resp q' = s_resp s -> g_parts q' = g_parts s ->
-  g_from q' = g_from s -> g_done q' = g_done s -> DI q'.
+  g_from q' = g_from s -> g_done q' = g_done s -> h_destroying q' = h_destroying s -> DI q'.
 Proof.
-  unfold DI. intros [Hd Hr] E1 E2 E3 E4 E5. rewrite E1, E2, E3, E4, E5. split; [exact Hd|].
-  destruct (s_resp s); [|exact Hr].
+  unfold DI. intros [Hd Hr] E1 E2 E3 E4 E5 E6. rewrite E1, E2, E3, E4, E5, E6. split; [exact Hd|].
+  intros Hnd. specialize (Hr Hnd). destruct (s_resp s); [|exact Hr].
   destruct Hr as (i & cb & rest & Hq & H). exists i, cb, (rest ++ [e]). rewrite Hq. split; [reflexivity|exact H].
 Qed.
 
-Lemma step_D s f ag s' ag' : InvA s (f :: ag) -> DI s -> step s f ag = (s', ag') -> DI s'.
+Lemma comp_ok_destroyed id r : comp_ok (mkComp id K_DESTROYED r [] []).
+Proof. unfold comp_ok; cbn. intros H; discriminate. Qed.
+
+Lemma step_D s f ag s' ag' : InvA2 s (f :: ag) -> DI s -> step s f ag = (s', ag') -> DI s'.
 Proof.
-  intros HA HD H.
-  destruct f as [[cb|full cb| | |r|]| | |]; cbn [step do_op] in H.
+  intros HA2 HD H.
+  destruct f as [[cb|full cb| | |r|]| | | |]; cbn [step do_op] in H.
   - destruct (s_max s <=? len (s_queue s)).
     + inversion H; subst. unfold DI in *. cbn. destruct HD as [Hd Hr]. split; [|exact Hr].
       apply forall_snoc; [exact Hd|apply comp_ok_rejected].
     + apply take_next_kf in H. eapply DI_frame; [exact H|].
-      eapply DI_qapp; [exact HD| | | | |]; reflexivity.
-  - destruct (s_discov s).
+      eapply DI_qapp; [exact HD| | | | | |]; reflexivity.
+  - destruct (s_discov s && negb (h_destroying s)).
     + apply take_next_kf in H. eapply DI_frame; [exact H|]. unfold DI in *. cbn. exact HD.
     + inversion H; subst. exact HD.
   - inversion H; subst. unfold DI in *. cbn. exact HD.
   - apply take_next_kf in H. eapply DI_frame; [exact H|]. unfold DI in *. cbn. exact HD.
-  - destruct (m_out s) as [|i rest] eqn:Eo.
+  - destruct (h_destroying s) eqn:Hdes; [inversion H; subst; exact HD|].
+    destruct (m_out s) as [|i rest] eqn:Eo.
     + inversion H; subst. exact HD.
-    + unfold InvA in HA. cbn [ndone] in HA. rewrite Eo in HA. apply AP_deliver in HA.
+    + destruct HA2 as [[_ HA]|[Hd _]]; [|congruence].
+      unfold InvA in HA. cbn [ndone] in HA. rewrite Eo in HA. apply AP_deliver in HA.
       destruct HA as (_ & _ & (cb & q' & Hq) & _).
-      eapply (handle_D i r (set_m_out rest s)); [|exact Hq|exact H]. unfold DI in *. cbn. exact HD.
-  - destruct (m_dout s) as [|x rest].
+      eapply (handle_D i r (set_m_out rest s)); [|exact Hdes|exact Hq|exact H]. unfold DI in *. cbn. exact HD.
+  - destruct (h_destroying s) eqn:Hdes; [inversion H; subst; exact HD|].
+    destruct (m_dout s) as [|x rest].
     + inversion H; subst. exact HD.
     + unfold disc_complete in H. inversion H; subst. unfold DI in *. cbn. exact HD.
   - apply take_next_kf in H. eapply DI_frame; [exact H|exact HD].
   - inversion H; subst. unfold DI in *. cbn. exact HD.
   - apply take_next_kf in H. eapply DI_frame; [exact H|]. unfold DI in *. cbn. exact HD.
+  - destruct (h_destroying s) eqn:Hdes; [|inversion H; subst; exact HD].
+    unfold destroy_next in H. destruct (s_queue s) as [|[id cb] q]; inversion H; subst; [exact HD|].
+    destruct HD as [Hd _]. unfold DI. cbn. split.
+    + apply forall_snoc; [exact Hd|apply comp_ok_destroyed].
+    + intros Hx. congruence.
 Qed.
 
 Lemma DI_init max discov ms ds : DI (init max discov ms ds).
 Proof. unfold DI, init; cbn. auto. Qed.
 Lemma DI_trace l s : DI s -> DI (set_g_trace l s).
 Proof. unfold DI; cbn; auto. Qed.
+Lemma DI_destroy s : DI s -> DI (start_destroy s).
+Proof. unfold DI, start_destroy; cbn. intros [Hd _]. split; [exact Hd|]. intros Hx; discriminate. Qed.
